@@ -88,6 +88,96 @@ Proof.
   intro H. apply Qle_antisym; apply clamp0_mono; rewrite H; apply Qle_refl.
 Qed.
 
+(* ------------------------------------------------------------------ clamph *)
+Lemma qhalf_pos q : qle qhalf q = true -> qlt q0 q = true.
+Proof. intro H. apply qle_true in H. apply qlt_true. unfold qhalf, q0 in *. lra. Qed.
+
+Lemma clamph_ge q : qle qhalf q = true -> clamph q = q.
+Proof.
+  intro H. unfold clamph. destruct (qlt q qhalf) eqn:E; [|reflexivity].
+  apply qlt_true in E. apply qle_true in H. exfalso. apply (Qlt_irrefl q). eapply Qlt_le_trans; eauto.
+Qed.
+
+Lemma clamph_lt q : qlt q qhalf = true -> clamph q = q0.
+Proof. intro H. unfold clamph. rewrite H. reflexivity. Qed.
+
+Lemma clamph_cases q : (qlt q qhalf = true /\ clamph q = q0) \/ (qle qhalf q = true /\ clamph q = q).
+Proof.
+  unfold clamph. destruct (qlt q qhalf) eqn:E; [left; split; reflexivity|].
+  right. split; [|reflexivity]. apply qle_true. apply qlt_false. exact E.
+Qed.
+
+Lemma clamph_nonneg q : (0 <= clamph q)%Q.
+Proof.
+  destruct (clamph_cases q) as [[_ H]|[H1 H]]; rewrite H; [apply Qle_refl|].
+  apply qle_true in H1. unfold qhalf in H1. lra.
+Qed.
+
+(* a clamped frequency is 0 or at least 1/2 *)
+Lemma clamph_pos_half q : qlt q0 (clamph q) = true -> qle qhalf (clamph q) = true /\ clamph q = q.
+Proof.
+  intro Hp. destruct (clamph_cases q) as [[_ H]|[H1 H]]; rewrite H in *.
+  - discriminate.
+  - split; [exact H1|reflexivity].
+Qed.
+
+Lemma clamph_nonpos q : qle q q0 = true -> qlt q0 (clamph q) = false.
+Proof.
+  intro H. rewrite clamph_lt; [reflexivity|].
+  apply qle_true in H. apply qlt_true. unfold qhalf, q0 in *. lra.
+Qed.
+
+Lemma clamph_zero q : (q == 0)%Q -> qlt q0 (clamph q) = false.
+Proof.
+  intro H. apply clamph_nonpos. apply qle_true. rewrite H. apply Qle_refl.
+Qed.
+
+Lemma clamph_mono a b : (a <= b)%Q -> (clamph a <= clamph b)%Q.
+Proof.
+  intro H. destruct (clamph_cases a) as [[Ha Ea]|[Ha Ea]]; destruct (clamph_cases b) as [[Hb Eb]|[Hb Eb]];
+    rewrite Ea, Eb.
+  - apply Qle_refl.
+  - apply qle_true in Hb. unfold qhalf, q0 in *. lra.
+  - apply qle_true in Ha. apply qlt_true in Hb. exfalso. unfold qhalf in *. lra.
+  - exact H.
+Qed.
+
+Lemma clamph_comp a b : (a == b)%Q -> (clamph a == clamph b)%Q.
+Proof.
+  intro H. apply Qle_antisym; apply clamph_mono; rewrite H; apply Qle_refl.
+Qed.
+
+Lemma tone_of_ge1 f : qle qhalf f = true -> 1 <= tone_of f.
+Proof.
+  intro H. apply qle_true in H. unfold tone_of. change 1 with (Qfloor 1).
+  apply Qfloor_resp_le. unfold qhalf in *. lra.
+Qed.
+
+(* ------------------------------------------------------------------ durations *)
+Lemma c_ulong_max d : c_ulong d = Z.max 0 (Qfloor d).
+Proof.
+  unfold c_ulong. destruct (qlt q0 d) eqn:E.
+  - apply qlt_true in E. assert (0 <= Qfloor d); [|lia].
+    change 0 with (Qfloor 0). apply Qfloor_resp_le. apply Qlt_le_weak. exact E.
+  - apply qlt_false in E. assert (Qfloor d <= 0); [|lia].
+    change 0 with (Qfloor 0). apply Qfloor_resp_le. exact E.
+Qed.
+
+Lemma c_ulong_ge0 d : 0 <= c_ulong d.
+Proof. rewrite c_ulong_max. lia. Qed.
+
+Lemma c_ulong_nonneg d : qle q0 d = true -> c_ulong d = Qfloor d /\ 0 <= Qfloor d.
+Proof.
+  intro H. apply qle_true in H.
+  assert (Hp : 0 <= Qfloor d) by (change 0 with (Qfloor 0); apply Qfloor_resp_le; exact H).
+  rewrite c_ulong_max. split; lia.
+Qed.
+
+Lemma c_ulong_nonpos d : qle d q0 = true -> c_ulong d = 0.
+Proof.
+  intro H. unfold c_ulong. rewrite qle_qlt in H. apply negb_true_iff in H. rewrite H. reflexivity.
+Qed.
+
 Lemma tone_of_mono a b : (a <= b)%Q -> tone_of a <= tone_of b.
 Proof.
   intro H. unfold tone_of. apply Qfloor_resp_le. apply Qplus_le_compat; [exact H|apply Qle_refl].
@@ -213,7 +303,7 @@ Proof.
   destruct (sound pin (sweep_freq s e steps i) st) as [st1 e1] eqn:Es. cbn [fst snd] in Hs.
   specialize (IH (i + 1) st1 _ _ Hs).
   destruct (sweep_loop pin s e steps sd k (i + 1) st1) as [st2 e3] eqn:El. cbn [fst snd] in *.
-  rewrite !sounding_from_app, !last_tone_from_app, ?sounding_qdelay, ?last_tone_qdelay. exact IH.
+  rewrite !sounding_from_app, !last_tone_from_app, ?sounding_dl, ?last_tone_dl. exact IH.
 Qed.
 
 (* --- melody loop *)
@@ -242,24 +332,24 @@ Proof.
 Qed.
 
 (* --- one step *)
-Lemma dstep_inv d pin neg tbl st o b lt :
+Lemma dstep_inv d pin tbl st o b lt :
   inv d st b lt ->
-  inv d (fst (dstep pin neg tbl st o))
-        (sounding_from b (snd (dstep pin neg tbl st o)))
-        (last_tone_from lt (snd (dstep pin neg tbl st o))).
+  inv d (fst (dstep pin tbl st o))
+        (sounding_from b (snd (dstep pin tbl st o)))
+        (last_tone_from lt (snd (dstep pin tbl st o))).
 Proof.
   intro H. destruct o as [f dur| |f on off times|s e dq steps|name tempo]; cbn [dstep].
   - (* play_tone *)
     unfold play_tone.
-    destruct (qle (clamp0 f) q0) eqn:Ef.
-    + assert (Hn : qlt q0 (clamp0 f) = false) by (rewrite qle_qlt in Ef; apply negb_true_iff in Ef; exact Ef).
+    destruct (qle (clamph f) q0) eqn:Ef.
+    + assert (Hn : qlt q0 (clamph f) = false) by (rewrite qle_qlt in Ef; apply negb_true_iff in Ef; exact Ef).
       cbn [silence]. destruct dur as [dq|]; cbn [fst snd].
       * rewrite Hn. rewrite !sounding_from_app, !last_tone_from_app. cbn [sounding_from last_tone_from].
         rewrite ?sounding_dl, ?last_tone_dl. cbn [sounding_from last_tone_from].
         apply inv_quiet. cbn. apply (inv_lastok _ _ _ _ H).
       * cbn [sounding_from last_tone_from]. apply inv_quiet. apply (inv_lastok _ _ _ _ H).
-    + assert (Hp : qlt q0 (clamp0 f) = true) by (rewrite qle_qlt in Ef; apply negb_false_iff in Ef; exact Ef).
-      pose proof (inv_start d pin (clamp0 f) st Hp) as Hs.
+    + assert (Hp : qlt q0 (clamph f) = true) by (rewrite qle_qlt in Ef; apply negb_false_iff in Ef; exact Ef).
+      pose proof (inv_start d pin (clamph f) st Hp) as Hs.
       cbn [start_tone] in *. destruct dur as [dq|]; cbn [fst snd] in *.
       * rewrite Hp. rewrite !sounding_from_app, !last_tone_from_app. cbn [sounding_from last_tone_from].
         rewrite ?sounding_dl, ?last_tone_dl. cbn [sounding_from last_tone_from].
@@ -269,14 +359,20 @@ Proof.
     unfold stop, silence. cbn [fst snd sounding_from last_tone_from].
     apply inv_quiet. apply (inv_lastok _ _ _ _ H).
   - (* beep *)
-    unfold beep. apply beep_loop_inv. exact H.
+    unfold beep.
+    match goal with |- context [beep_loop ?p ?t ?on' ?off' ?k ?s0] =>
+      pose proof (beep_loop_inv d p t on' off' k s0 b lt H) as Hl;
+      destruct (beep_loop p t on' off' k s0) as [st1 e1] end.
+    cbn [fst snd] in *.
+    rewrite sounding_from_app, last_tone_from_app. cbn [sounding_from last_tone_from].
+    apply inv_quiet. apply (inv_lastok _ _ _ _ Hl).
   - (* sweep *)
     unfold sweep.
     pose proof (sweep_loop_inv d pin (clamp0 s) (clamp0 e) (Z.max 1 (c_int steps))
-                  (inject_Z (f32z (c_ulong neg dq)) / inject_Z (Z.max 1 (c_int steps)))%Q
+                  (c_ulong dq / Z.max 1 (c_int steps))
                   (Z.to_nat (Z.max 1 (c_int steps))) 0 st b lt H) as Hl.
     destruct (sweep_loop pin (clamp0 s) (clamp0 e) (Z.max 1 (c_int steps))
-                (inject_Z (f32z (c_ulong neg dq)) / inject_Z (Z.max 1 (c_int steps)))%Q
+                (c_ulong dq / Z.max 1 (c_int steps))
                 (Z.to_nat (Z.max 1 (c_int steps))) 0 st) as [st1 e1] eqn:El.
     cbn [fst snd] in *.
     rewrite sounding_from_app, last_tone_from_app. cbn [sounding_from last_tone_from].
@@ -286,18 +382,18 @@ Proof.
     apply melody_loop_inv. exact H.
 Qed.
 
-Lemma run_inv d pin neg tbl ops : forall st b lt,
+Lemma run_inv d pin tbl ops : forall st b lt,
   inv d st b lt ->
-  inv d (fst (run pin neg tbl st ops))
-        (sounding_from b (snd (run pin neg tbl st ops)))
-        (last_tone_from lt (snd (run pin neg tbl st ops))).
+  inv d (fst (run pin tbl st ops))
+        (sounding_from b (snd (run pin tbl st ops)))
+        (last_tone_from lt (snd (run pin tbl st ops))).
 Proof.
   induction ops as [|o r IH]; intros st b lt H; [exact H|].
   cbn [run].
-  pose proof (dstep_inv d pin neg tbl st o b lt H) as Hs.
-  destruct (dstep pin neg tbl st o) as [st1 e1]. cbn [fst snd] in Hs.
+  pose proof (dstep_inv d pin tbl st o b lt H) as Hs.
+  destruct (dstep pin tbl st o) as [st1 e1]. cbn [fst snd] in Hs.
   specialize (IH st1 _ _ Hs).
-  destruct (run pin neg tbl st1 r) as [st2 e2]. cbn [fst snd] in *.
+  destruct (run pin tbl st1 r) as [st2 e2]. cbn [fst snd] in *.
   rewrite sounding_from_app, last_tone_from_app. exact IH.
 Qed.
 
@@ -305,29 +401,29 @@ Lemma inv_init d : inv d (init d) false None.
 Proof. unfold inv, init, lastok; cbn. repeat split; congruence. Qed.
 
 (* C16_getters *)
-Lemma getters_all_sequences : forall pin neg tbl default ops,
-  getters_ok default (fst (run pin neg tbl (init default) ops)) (snd (run pin neg tbl (init default) ops)).
+Lemma getters_all_sequences : forall pin tbl default ops,
+  getters_ok default (fst (run pin tbl (init default) ops)) (snd (run pin tbl (init default) ops)).
 Proof.
-  intros. apply inv_getters. apply (run_inv default pin neg tbl ops (init default) false None (inv_init default)).
+  intros. apply inv_getters. apply (run_inv default pin tbl ops (init default) false None (inv_init default)).
 Qed.
 
 (* ------------------------------------------------------------------ run over an appended sequence *)
-Lemma run_app pin neg tbl a b : forall st,
-  run pin neg tbl st (a ++ b) =
-  (fst (run pin neg tbl (fst (run pin neg tbl st a)) b),
-   snd (run pin neg tbl st a) ++ snd (run pin neg tbl (fst (run pin neg tbl st a)) b)).
+Lemma run_app pin tbl a b : forall st,
+  run pin tbl st (a ++ b) =
+  (fst (run pin tbl (fst (run pin tbl st a)) b),
+   snd (run pin tbl st a) ++ snd (run pin tbl (fst (run pin tbl st a)) b)).
 Proof.
   induction a as [|o r IH]; intro st.
-  - cbn. destruct (run pin neg tbl st b); reflexivity.
-  - cbn [app run]. destruct (dstep pin neg tbl st o) as [st1 e1]. rewrite IH.
-    destruct (run pin neg tbl st1 r) as [st2 e2]. cbn [fst snd].
+  - cbn. destruct (run pin tbl st b); reflexivity.
+  - cbn [app run]. destruct (dstep pin tbl st o) as [st1 e1]. rewrite IH.
+    destruct (run pin tbl st1 r) as [st2 e2]. cbn [fst snd].
     rewrite app_assoc. reflexivity.
 Qed.
 
-Lemma run_single pin neg tbl st o :
-  run pin neg tbl st [o] = (fst (dstep pin neg tbl st o), snd (dstep pin neg tbl st o)).
+Lemma run_single pin tbl st o :
+  run pin tbl st [o] = (fst (dstep pin tbl st o), snd (dstep pin tbl st o)).
 Proof.
-  cbn. destruct (dstep pin neg tbl st o) as [st1 e1]. cbn. rewrite app_nil_r. reflexivity.
+  cbn. destruct (dstep pin tbl st o) as [st1 e1]. cbn. rewrite app_nil_r. reflexivity.
 Qed.
 
 (* ------------------------------------------------------------------ timed calls end silent *)
@@ -358,48 +454,44 @@ Proof.
       destruct (melody_loop pin beat (x :: r') (quiet (fst (start_tone pin f st)))) as [st2 e2]. exact IH.
 Qed.
 
-Lemma timed_state_false pin neg tbl st o :
-  timed o = true -> silent_guard tbl o = true -> b_state (fst (dstep pin neg tbl st o)) = false.
+Lemma timed_state_false pin tbl st o :
+  timed o = true -> silent_guard tbl o = true -> b_state (fst (dstep pin tbl st o)) = false.
 Proof.
   intros Ht Hg. destruct o as [f [dq|]| |f on off times|s e dq steps|name tempo]; cbn in Ht; try discriminate;
     cbn [dstep].
-  - unfold play_tone. destruct (qle (clamp0 f) q0); reflexivity.
-  - unfold beep. apply beep_loop_state. cbn in Hg. apply Z.leb_le in Hg.
-    intro Hz. assert (Hn : Z.of_nat (Z.to_nat (Z.max 0 (c_int times))) = 0) by (rewrite Hz; reflexivity).
-    rewrite Z2Nat.id in Hn by lia. lia.
+  - unfold play_tone. destruct (qle (clamph f) q0); reflexivity.
+  - unfold beep. destruct (beep_loop _ _ _ _ _ _) as [st1 e1]. reflexivity.
   - unfold sweep.
     destruct (sweep_loop pin (clamp0 s) (clamp0 e) (Z.max 1 (c_int steps))
-                (inject_Z (f32z (c_ulong neg dq)) / inject_Z (Z.max 1 (c_int steps)))%Q
+                (c_ulong dq / Z.max 1 (c_int steps))
                 (Z.to_nat (Z.max 1 (c_int steps))) 0 st) as [st1 e1].
     reflexivity.
   - unfold melody. cbn in Hg. destruct (tlookup name tbl) as [[t0 seq]|]; [|discriminate].
     destruct seq as [|x r]; [discriminate|]. apply melody_loop_state. congruence.
 Qed.
 
-(* C16_timed_calls_end_silent (partial: inside silent_guard) *)
-Lemma timed_calls_end_silent : forall pin neg tbl default ops o,
+(* C16_timed_calls_end_silent (silent_guard: a melody needs a score in the table) *)
+Lemma timed_calls_end_silent : forall pin tbl default ops o,
   timed o = true -> silent_guard tbl o = true ->
-  get_state (fst (run pin neg tbl (init default) (ops ++ [o]))) = false /\
-  get_frequency (fst (run pin neg tbl (init default) (ops ++ [o]))) = q0 /\
-  sounding (snd (run pin neg tbl (init default) (ops ++ [o]))) = false.
+  get_state (fst (run pin tbl (init default) (ops ++ [o]))) = false /\
+  get_frequency (fst (run pin tbl (init default) (ops ++ [o]))) = q0 /\
+  sounding (snd (run pin tbl (init default) (ops ++ [o]))) = false.
 Proof.
-  intros pin neg tbl default ops o Ht Hg.
-  pose proof (getters_all_sequences pin neg tbl default (ops ++ [o])) as (H1 & H2 & _).
-  assert (Hs : get_state (fst (run pin neg tbl (init default) (ops ++ [o]))) = false).
+  intros pin tbl default ops o Ht Hg.
+  pose proof (getters_all_sequences pin tbl default (ops ++ [o])) as (H1 & H2 & _).
+  assert (Hs : get_state (fst (run pin tbl (init default) (ops ++ [o]))) = false).
   { rewrite run_app, run_single. cbn [fst]. unfold get_state. apply timed_state_false; assumption. }
   rewrite H1 in Hs. split; [rewrite H1; exact Hs|]. split; [apply H2; exact Hs|exact Hs].
 Qed.
 
-(* the guard cannot be dropped: beep(times = 0) after an untimed play_tone *)
-Lemma timed_calls_end_silent_refuted :
-  exists pin neg tbl default ops o,
-    timed o = true /\
-    get_state (fst (run pin neg tbl (init default) (ops ++ [o]))) = true /\
-    sounding (snd (run pin neg tbl (init default) (ops ++ [o]))) = true.
+(* beep, whatever its count (times = 0 included), leaves the pin silent - in any state, after any trace *)
+Lemma beep_always_silent : forall pin tbl st f on off times b,
+  get_state (fst (dstep pin tbl st (Beep f on off times))) = false /\
+  get_frequency (fst (dstep pin tbl st (Beep f on off times))) = q0 /\
+  sounding_from b (snd (dstep pin tbl st (Beep f on off times))) = false.
 Proof.
-  exists 8, neg_literal, [], (Qmake 440 1), [PlayTone (Qmake 440 1) None],
-         (Beep None (Qmake 100 1) (Qmake 100 1) (Qmake 0 1)).
-  vm_compute. repeat split.
+  intros. cbn [dstep]. unfold beep. destruct (beep_loop _ _ _ _ _ _) as [st1 e1]. cbn [fst snd].
+  rewrite sounding_from_app. repeat split.
 Qed.
 
 (* ------------------------------------------------------------------ frequency <= 0 never tones *)
@@ -424,7 +516,7 @@ Qed.
 
 Lemma sweep_freq_zero s e steps i : (s == 0)%Q -> (e == 0)%Q -> qlt q0 (sweep_freq s e steps i) = false.
 Proof.
-  intros Hs He. unfold sweep_freq. apply clamp0_zero. rewrite Hs, He. ring.
+  intros Hs He. unfold sweep_freq. apply clamph_zero. rewrite Hs, He. ring.
 Qed.
 
 Lemma sweep_loop_nonpos pin s e steps sd k : forall i st, (s == 0)%Q -> (e == 0)%Q ->
@@ -438,60 +530,68 @@ Proof.
   destruct (IH (i + 1) st1 Hs He) as [Ht2 Hl2].
   destruct (sweep_loop pin s e steps sd k (i + 1) st1) as [st2 e3]. cbn [fst snd] in *.
   split.
-  - rewrite !tones_app, Ht, Ht2, tones_qdelay. reflexivity.
+  - rewrite !tones_app, Ht, Ht2, tones_dl. reflexivity.
   - congruence.
 Qed.
 
-Lemma nonpositive_step pin neg tbl st o :
+Lemma nonpositive_step pin tbl st o :
   nonpositive_in (b_last st) o = true ->
-  tones (snd (dstep pin neg tbl st o)) = [] /\ b_last (fst (dstep pin neg tbl st o)) = b_last st.
+  tones (snd (dstep pin tbl st o)) = [] /\ b_last (fst (dstep pin tbl st o)) = b_last st.
 Proof.
   intro H. destruct o as [f dur| |[f|] on off times|s e dq steps|name tempo]; cbn in H; try discriminate;
     cbn [dstep].
   - unfold play_tone.
-    assert (Hc : qle (clamp0 f) q0 = true).
-    { rewrite qle_qlt. apply negb_true_iff. apply clamp0_nonpos. exact H. }
+    assert (Hc : qle (clamph f) q0 = true).
+    { rewrite qle_qlt. apply negb_true_iff. apply clamph_nonpos. exact H. }
     rewrite Hc. cbn [silence]. destruct dur as [dq|]; cbn [fst snd].
-    + rewrite (clamp0_nonpos f H). rewrite !tones_app, tones_dl. cbn. split; reflexivity.
+    + rewrite (clamph_nonpos f H). rewrite !tones_app, tones_dl. cbn. split; reflexivity.
     + cbn. split; reflexivity.
   - cbn. split; reflexivity.
-  - unfold beep. apply beep_loop_nonpos. apply clamp0_nonpos. exact H.
-  - unfold beep. apply beep_loop_nonpos. apply clamp0_nonpos. exact H.
+  - unfold beep.
+    match goal with |- context [beep_loop ?p ?t ?on' ?off' ?k ?s0] =>
+      destruct (beep_loop_nonpos p t on' off' k s0 (clamph_nonpos _ H)) as [Ht Hl];
+      destruct (beep_loop p t on' off' k s0) as [st1 e1] end.
+    cbn [fst snd quiet b_last] in *. rewrite tones_app, Ht. cbn. split; [reflexivity|exact Hl].
+  - unfold beep.
+    match goal with |- context [beep_loop ?p ?t ?on' ?off' ?k ?s0] =>
+      destruct (beep_loop_nonpos p t on' off' k s0 (clamph_nonpos _ H)) as [Ht Hl];
+      destruct (beep_loop p t on' off' k s0) as [st1 e1] end.
+    cbn [fst snd quiet b_last] in *. rewrite tones_app, Ht. cbn. split; [reflexivity|exact Hl].
   - unfold sweep. apply andb_true_iff in H as [Hs He].
     destruct (sweep_loop_nonpos pin (clamp0 s) (clamp0 e) (Z.max 1 (c_int steps))
-                (inject_Z (f32z (c_ulong neg dq)) / inject_Z (Z.max 1 (c_int steps)))%Q
+                (c_ulong dq / Z.max 1 (c_int steps))
                 (Z.to_nat (Z.max 1 (c_int steps))) 0 st
                 (clamp0_nonpos_eq0 s Hs) (clamp0_nonpos_eq0 e He)) as [Ht Hl].
     destruct (sweep_loop pin (clamp0 s) (clamp0 e) (Z.max 1 (c_int steps))
-                (inject_Z (f32z (c_ulong neg dq)) / inject_Z (Z.max 1 (c_int steps)))%Q
+                (c_ulong dq / Z.max 1 (c_int steps))
                 (Z.to_nat (Z.max 1 (c_int steps))) 0 st) as [st1 e1].
     cbn [fst snd] in *. rewrite tones_app, Ht. cbn. split; [reflexivity|exact Hl].
 Qed.
 
 (* C16_nonpositive_never_tones, per call, in any state (= after any history) *)
-Lemma nonpositive_never_tones : forall pin neg tbl st o,
-  nonpositive_call o = true -> tones (snd (dstep pin neg tbl st o)) = [].
+Lemma nonpositive_never_tones : forall pin tbl st o,
+  nonpositive_call o = true -> tones (snd (dstep pin tbl st o)) = [].
 Proof.
-  intros pin neg tbl st o H. apply nonpositive_step.
+  intros pin tbl st o H. apply nonpositive_step.
   destruct o as [f dur| |[f|] on off times|s e dq steps|name tempo]; cbn in *; try discriminate; exact H.
 Qed.
 
 (* a beep without frequency repeats the last frequency: no tone if that is <= 0 *)
-Lemma beep_default_nonpositive : forall pin neg tbl st on off times,
+Lemma beep_default_nonpositive : forall pin tbl st on off times,
   qle (get_last_frequency st) q0 = true ->
-  tones (snd (dstep pin neg tbl st (Beep None on off times))) = [].
+  tones (snd (dstep pin tbl st (Beep None on off times))) = [].
 Proof. intros. apply nonpositive_step. cbn. assumption. Qed.
 
 (* whole sequences *)
-Lemma nonpositive_sequences : forall pin neg tbl ops st,
-  forallb (nonpositive_in (b_last st)) ops = true -> tones (snd (run pin neg tbl st ops)) = [].
+Lemma nonpositive_sequences : forall pin tbl ops st,
+  forallb (nonpositive_in (b_last st)) ops = true -> tones (snd (run pin tbl st ops)) = [].
 Proof.
-  intros pin neg tbl ops; induction ops as [|o r IH]; intros st H; [reflexivity|].
+  intros pin tbl ops; induction ops as [|o r IH]; intros st H; [reflexivity|].
   cbn in H. apply andb_true_iff in H as [Ho Hr]. cbn [run].
-  destruct (nonpositive_step pin neg tbl st o Ho) as [Ht Hl].
-  destruct (dstep pin neg tbl st o) as [st1 e1]. cbn [fst snd] in *.
+  destruct (nonpositive_step pin tbl st o Ho) as [Ht Hl].
+  destruct (dstep pin tbl st o) as [st1 e1]. cbn [fst snd] in *.
   rewrite <- Hl in Hr. specialize (IH st1 Hr).
-  destruct (run pin neg tbl st1 r) as [st2 e2]. cbn [fst snd] in *.
+  destruct (run pin tbl st1 r) as [st2 e2]. cbn [fst snd] in *.
   rewrite tones_app, Ht, IH. reflexivity.
 Qed.
 
@@ -550,50 +650,54 @@ Section EventInvariant.
       fa. apply Ptone. apply qlt_true. apply qle_false. exact Ef.
   Qed.
 
-  Lemma dstep_all neg tbl st o : Forall P (snd (dstep pin neg tbl st o)).
+  Lemma dstep_all tbl st o : Forall P (snd (dstep pin tbl st o)).
   Proof.
     destruct o as [f dur| |f on off times|s e dq steps|name tempo]; cbn [dstep].
-    - unfold play_tone. destruct (qle (clamp0 f) q0) eqn:Ef.
+    - unfold play_tone. destruct (qle (clamph f) q0) eqn:Ef.
       + destruct dur as [dq|]; cbn [silence fst snd].
-        * fa. destruct (qlt q0 (clamp0 f)); fa.
+        * fa. destruct (qlt q0 (clamph f)); fa.
         * fa.
-      + assert (Hp : qlt q0 (clamp0 f) = true) by (apply qlt_true; apply qle_false; exact Ef).
+      + assert (Hp : qlt q0 (clamph f) = true) by (apply qlt_true; apply qle_false; exact Ef).
         destruct dur as [dq|]; cbn [start_tone fst snd].
         * rewrite Hp. fa.
         * fa.
     - cbn [stop silence snd]. fa.
-    - unfold beep. apply beep_loop_all.
+    - unfold beep.
+      match goal with |- context [beep_loop ?p ?t ?on' ?off' ?k ?s0] =>
+        pose proof (beep_loop_all t on' off' k s0) as Hl;
+        destruct (beep_loop p t on' off' k s0) as [st1 e1] end.
+      cbn [fst snd] in *. fa.
     - unfold sweep.
       pose proof (sweep_loop_all (clamp0 s) (clamp0 e) (Z.max 1 (c_int steps))
-                   (inject_Z (f32z (c_ulong neg dq)) / inject_Z (Z.max 1 (c_int steps)))%Q
+                   (c_ulong dq / Z.max 1 (c_int steps))
                    (Z.to_nat (Z.max 1 (c_int steps))) 0 st) as Hl.
       destruct (sweep_loop pin (clamp0 s) (clamp0 e) (Z.max 1 (c_int steps))
-                  (inject_Z (f32z (c_ulong neg dq)) / inject_Z (Z.max 1 (c_int steps)))%Q
+                  (c_ulong dq / Z.max 1 (c_int steps))
                   (Z.to_nat (Z.max 1 (c_int steps))) 0 st) as [st1 e1].
       cbn [fst snd] in *. fa.
     - unfold melody. destruct (tlookup name tbl) as [[t0 seq]|]; [|constructor].
       apply melody_loop_all.
   Qed.
 
-  Lemma run_all neg tbl ops : forall st, Forall P (snd (run pin neg tbl st ops)).
+  Lemma run_all tbl ops : forall st, Forall P (snd (run pin tbl st ops)).
   Proof.
     induction ops as [|o r IH]; intro st; [constructor|].
-    cbn [run]. pose proof (dstep_all neg tbl st o) as Hs.
-    destruct (dstep pin neg tbl st o) as [st1 e1]. specialize (IH st1).
-    destruct (run pin neg tbl st1 r) as [st2 e2]. cbn [fst snd] in *.
+    cbn [run]. pose proof (dstep_all tbl st o) as Hs.
+    destruct (dstep pin tbl st o) as [st1 e1]. specialize (IH st1).
+    destruct (run pin tbl st1 r) as [st2 e2]. cbn [fst snd] in *.
     apply Forall_app; split; assumption.
   Qed.
 End EventInvariant.
 
-Lemma every_tone_positive : forall pin neg tbl st ops,
-  Forall tone_positive (snd (run pin neg tbl st ops)).
+Lemma every_tone_positive : forall pin tbl st ops,
+  Forall tone_positive (snd (run pin tbl st ops)).
 Proof.
   intros. apply run_all; cbn; auto.
   intros f H. exists f. split; [apply qlt_true; exact H|reflexivity].
 Qed.
 
-Lemma only_own_pin : forall pin neg tbl st ops,
-  Forall (on_pin pin) (snd (run pin neg tbl st ops)).
+Lemma only_own_pin : forall pin tbl st ops,
+  Forall (on_pin pin) (snd (run pin tbl st ops)).
 Proof. intros. apply run_all; cbn; auto. Qed.
 
 (* ------------------------------------------------------------------ beep: counts and shape *)
@@ -649,32 +753,38 @@ Lemma to_nat_max0 z : Z.to_nat (Z.max 0 z) = Z.to_nat z.
 Proof. destruct z; reflexivity. Qed.
 
 (* C16_beep_counts *)
-Lemma beep_counts : forall pin neg tbl st f on off times,
-  let target := clamp0 (match f with Some q => q | None => get_last_frequency st end) in
+Lemma beep_counts : forall pin tbl st f on off times,
+  let target := clamph (match f with Some q => q | None => get_last_frequency st end) in
   let n := Z.to_nat (c_int times) in
-  let tr := snd (dstep pin neg tbl st (Beep f on off times)) in
+  let tr := snd (dstep pin tbl st (Beep f on off times)) in
   (qlt q0 target = true ->
-     tr = intercalate (dl (c_ulong neg off))
-            (repeat (beep_block pin (tone_of target) (c_ulong neg on)) n) /\
-     tones tr = repeat (tone_of target) n /\ notones tr = n) /\
+     tr = intercalate (dl (c_ulong off))
+            (repeat (beep_block pin (tone_of target) (c_ulong on)) n) ++ [NoTone pin] /\
+     tones tr = repeat (tone_of target) n /\ notones tr = S n /\ 1 <= tone_of target) /\
   (qlt q0 target = false ->
-     tr = intercalate (dl (c_ulong neg off)) (repeat (mute_block pin (c_ulong neg on)) n) /\
+     tr = intercalate (dl (c_ulong off)) (repeat (mute_block pin (c_ulong on)) n) ++ [NoTone pin] /\
      tones tr = []).
 Proof.
-  intros pin neg tbl st f on off times target n tr.
-  assert (Htr : tr = intercalate (dl (c_ulong neg off))
-                 (repeat (if qlt q0 target then beep_block pin (tone_of target) (c_ulong neg on)
-                          else mute_block pin (c_ulong neg on)) n)).
-  { subst tr n target. cbn [dstep]. unfold beep, get_last_frequency. rewrite beep_loop_events, to_nat_max0.
-    reflexivity. }
+  intros pin tbl st f on off times target n tr.
+  assert (Htr : tr = intercalate (dl (c_ulong off))
+                 (repeat (if qlt q0 target then beep_block pin (tone_of target) (c_ulong on)
+                          else mute_block pin (c_ulong on)) n) ++ [NoTone pin]).
+  { subst tr n target. cbn [dstep]. unfold beep, get_last_frequency.
+    match goal with |- context [beep_loop ?p ?t ?on' ?off' ?k ?s0] =>
+      pose proof (beep_loop_events p t on' off' k s0) as He;
+      destruct (beep_loop p t on' off' k s0) as [st1 e1] end.
+    cbn [snd] in *. rewrite He, to_nat_max0. reflexivity. }
   split; intro H; rewrite H in Htr; rewrite Htr.
-  - split; [reflexivity|]. split; [apply tones_intercalate_beep|apply notones_intercalate_beep].
-  - split; [reflexivity|apply tones_intercalate_mute].
+  - split; [reflexivity|]. split; [|split].
+    + rewrite tones_app, tones_intercalate_beep. cbn. apply app_nil_r.
+    + rewrite notones_app, notones_intercalate_beep. cbn. apply Nat.add_1_r.
+    + apply tone_of_ge1. apply (clamph_pos_half _ H).
+  - split; [reflexivity|]. rewrite tones_app, tones_intercalate_mute. reflexivity.
 Qed.
 
 (* a positive frequency is used as it is *)
-Lemma beep_target_given : forall f, qlt q0 f = true -> clamp0 f = f.
-Proof. exact clamp0_pos. Qed.
+Lemma beep_target_given : forall f, qle qhalf f = true -> clamph f = f.
+Proof. exact clamph_ge. Qed.
 
 (* ------------------------------------------------------------------ melody *)
 Lemma melody_loop_events pin beat seq : forall st,
@@ -690,9 +800,9 @@ Proof.
     cbn [fst snd start_tone] in *. rewrite IH. reflexivity.
 Qed.
 
-Lemma melody_events pin neg tbl st name tempo t0 seq :
+Lemma melody_events pin tbl st name tempo t0 seq :
   tlookup name tbl = Some (t0, seq) ->
-  snd (dstep pin neg tbl st (Melody name tempo)) =
+  snd (dstep pin tbl st (Melody name tempo)) =
   play_score pin (Qmake 60000 1 / eff_tempo t0 tempo)%Q seq.
 Proof.
   intro H. cbn [dstep]. unfold melody, score in *. rewrite H. apply melody_loop_events.
@@ -822,12 +932,12 @@ Proof.
 Qed.
 
 (* C16_melody on the generated emitter table, against the pinned score *)
-Lemma melody_plays_pinned_score : forall pin neg st name tempo t0 seq,
+Lemma melody_plays_pinned_score : forall pin st name tempo t0 seq,
   tlookup name spec_melodies = Some (t0, seq) ->
-  snd (dstep pin neg emitter_melodies st (Melody name tempo)) =
+  snd (dstep pin emitter_melodies st (Melody name tempo)) =
   play_score pin (Qmake 60000 1 / eff_tempo t0 tempo)%Q seq.
 Proof.
-  intros pin neg st name tempo t0 seq H. apply melody_events.
+  intros pin st name tempo t0 seq H. apply melody_events.
   exact (eq_trans (tables_agree_sound _ _ generated_scores_pinned name) H).
 Qed.
 
@@ -861,21 +971,21 @@ Proof.
   replace (Z.of_nat a + 1) with (Z.of_nat (S a)) by lia.
   specialize (IH (S a) st1).
   destruct (sweep_loop pin s e steps sd k (Z.of_nat (S a)) st1) as [st2 e3]. cbn [fst snd] in *.
-  rewrite !tones_app, tones_qdelay, Hs, IH. unfold positives. cbn [filter].
+  rewrite !tones_app, tones_dl, Hs, IH. unfold positives. cbn [filter].
   destruct (qlt q0 (sweep_freq s e steps (Z.of_nat a))); reflexivity.
 Qed.
 
-Lemma sweep_tones pin neg tbl st s e d steps :
-  tones (snd (dstep pin neg tbl st (Sweep s e d steps))) =
+Lemma sweep_tones pin tbl st s e d steps :
+  tones (snd (dstep pin tbl st (Sweep s e d steps))) =
   map tone_of (positives (sweep_freqs (clamp0 s) (clamp0 e) (Z.max 1 (c_int steps)))).
 Proof.
   cbn [dstep]. unfold sweep, sweep_freqs.
   pose proof (sweep_loop_tones pin (clamp0 s) (clamp0 e) (Z.max 1 (c_int steps))
-               (inject_Z (f32z (c_ulong neg d)) / inject_Z (Z.max 1 (c_int steps)))%Q
+               (c_ulong d / Z.max 1 (c_int steps))
                (Z.to_nat (Z.max 1 (c_int steps))) 0%nat st) as Hl.
   change (Z.of_nat 0) with 0 in Hl.
   destruct (sweep_loop pin (clamp0 s) (clamp0 e) (Z.max 1 (c_int steps))
-              (inject_Z (f32z (c_ulong neg d)) / inject_Z (Z.max 1 (c_int steps)))%Q
+              (c_ulong d / Z.max 1 (c_int steps))
               (Z.to_nat (Z.max 1 (c_int steps))) 0 st) as [st1 e1].
   cbn [fst snd] in *. rewrite tones_app, Hl. cbn. rewrite app_nil_r. reflexivity.
 Qed.
@@ -899,20 +1009,27 @@ Proof.
     + unfold Zminus. rewrite inject_Z_plus. reflexivity.
 Qed.
 
-Lemma qlt_pos_clamp x : (0 < x)%Q -> qlt q0 (clamp0 x) = true.
+Lemma interp_ge_half s e n i : (qhalf <= s)%Q -> (qhalf <= e)%Q -> 1 <= n -> 0 <= i <= n - 1 ->
+  (qhalf <= s + (e - s) * (if n =? 1 then 1 # 1 else inject_Z i / (inject_Z n - (1 # 1))))%Q.
 Proof.
-  intro H. assert (Hx : qlt q0 x = true) by (apply qlt_true; exact H).
-  rewrite (clamp0_pos x Hx). exact Hx.
-Qed.
-
-Lemma sweep_freq_pos s e n i : (0 < s)%Q -> (0 < e)%Q -> 1 <= n -> 0 <= i <= n - 1 ->
-  qlt q0 (sweep_freq s e n i) = true.
-Proof.
-  intros Hs He Hn Hi. unfold sweep_freq. apply qlt_pos_clamp.
-  destruct (n =? 1) eqn:E.
+  intros Hs He Hn Hi. destruct (n =? 1) eqn:E.
   - setoid_replace (s + (e - s) * (1 # 1))%Q with e by ring. exact He.
   - apply Z.eqb_neq in E. destruct (progress_range n i ltac:(lia) Hi) as [H0 H1].
-    set (p := (inject_Z i / (inject_Z n - (1 # 1)))%Q) in *. nra.
+    set (p := (inject_Z i / (inject_Z n - (1 # 1)))%Q) in *. unfold qhalf in *. nra.
+Qed.
+
+(* both ends audible: every interpolated frequency is (at least 1/2, so it is not clamped) *)
+Lemma sweep_freq_ge_half s e n i : (qhalf <= s)%Q -> (qhalf <= e)%Q -> 1 <= n -> 0 <= i <= n - 1 ->
+  (qhalf <= sweep_freq s e n i)%Q.
+Proof.
+  intros Hs He Hn Hi. pose proof (interp_ge_half s e n i Hs He Hn Hi) as Hx.
+  unfold sweep_freq. rewrite clamph_ge by (apply qle_true; exact Hx). exact Hx.
+Qed.
+
+Lemma sweep_freq_pos s e n i : (qhalf <= s)%Q -> (qhalf <= e)%Q -> 1 <= n -> 0 <= i <= n - 1 ->
+  qlt q0 (sweep_freq s e n i) = true.
+Proof.
+  intros Hs He Hn Hi. apply qhalf_pos. apply qle_true. apply sweep_freq_ge_half; assumption.
 Qed.
 
 Lemma positives_all l : Forall (fun f => qlt q0 f = true) l -> positives l = l.
@@ -920,7 +1037,7 @@ Proof.
   induction 1 as [|f l Hf _ IH]; [reflexivity|]. unfold positives in *. cbn. rewrite Hf, IH. reflexivity.
 Qed.
 
-Lemma sweep_freqs_all_pos s e n : (0 < s)%Q -> (0 < e)%Q -> 1 <= n ->
+Lemma sweep_freqs_all_pos s e n : (qhalf <= s)%Q -> (qhalf <= e)%Q -> 1 <= n ->
   Forall (fun f => qlt q0 f = true) (sweep_freqs s e n).
 Proof.
   intros Hs He Hn. unfold sweep_freqs. apply Forall_forall. intros f Hin.
@@ -944,7 +1061,7 @@ Lemma sweep_freq_up s e n i j : (s <= e)%Q -> 1 <= n -> i <= j ->
   (sweep_freq s e n i <= sweep_freq s e n j)%Q.
 Proof.
   intros Hse Hn Hij. unfold sweep_freq. destruct (n =? 1) eqn:E; [apply Qle_refl|].
-  apply Z.eqb_neq in E. apply clamp0_mono.
+  apply Z.eqb_neq in E. apply clamph_mono.
   pose proof (progress_mono n i j ltac:(lia) Hij) as Hp.
   set (p := (inject_Z i / (inject_Z n - (1 # 1)))%Q) in *.
   set (r := (inject_Z j / (inject_Z n - (1 # 1)))%Q) in *. nra.
@@ -954,7 +1071,7 @@ Lemma sweep_freq_down s e n i j : (e <= s)%Q -> 1 <= n -> i <= j ->
   (sweep_freq s e n j <= sweep_freq s e n i)%Q.
 Proof.
   intros Hse Hn Hij. unfold sweep_freq. destruct (n =? 1) eqn:E; [apply Qle_refl|].
-  apply Z.eqb_neq in E. apply clamp0_mono.
+  apply Z.eqb_neq in E. apply clamph_mono.
   pose proof (progress_mono n i j ltac:(lia) Hij) as Hp.
   set (p := (inject_Z i / (inject_Z n - (1 # 1)))%Q) in *.
   set (r := (inject_Z j / (inject_Z n - (1 # 1)))%Q) in *. nra.
@@ -987,21 +1104,19 @@ Proof.
   apply (sorted_map_filter R (fun j => tone_of (sweep_freq s e n (Z.of_nat j)))). exact H.
 Qed.
 
-Lemma clamp0_le_compat a b : (a <= b)%Q -> (clamp0 a <= clamp0 b)%Q.
-Proof. apply clamp0_mono. Qed.
 
 (* first and last *)
-Lemma sweep_freq_first s e n : 1 < n -> (sweep_freq s e n 0 == clamp0 s)%Q.
+Lemma sweep_freq_first s e n : 1 < n -> (sweep_freq s e n 0 == clamph s)%Q.
 Proof.
   intro Hn. unfold sweep_freq. replace (n =? 1) with false by (symmetry; apply Z.eqb_neq; lia).
-  apply clamp0_comp. unfold Qdiv. change (inject_Z 0) with 0%Q. ring.
+  apply clamph_comp. unfold Qdiv. change (inject_Z 0) with 0%Q. ring.
 Qed.
 
-Lemma sweep_freq_last s e n : 1 <= n -> (sweep_freq s e n (n - 1) == clamp0 e)%Q.
+Lemma sweep_freq_last s e n : 1 <= n -> (sweep_freq s e n (n - 1) == clamph e)%Q.
 Proof.
   intro Hn. unfold sweep_freq. destruct (n =? 1) eqn:E.
-  - apply clamp0_comp. ring.
-  - apply Z.eqb_neq in E. apply clamp0_comp.
+  - apply clamph_comp. ring.
+  - apply Z.eqb_neq in E. apply clamph_comp.
     assert (HD : (0 < inject_Z n - 1)%Q) by (apply den_pos; lia).
     setoid_replace (inject_Z (n - 1)) with (inject_Z n - 1)%Q
       by (unfold Zminus; rewrite inject_Z_plus; reflexivity).
@@ -1018,8 +1133,8 @@ Qed.
 Lemma positives_app a b : positives (a ++ b) = positives a ++ positives b.
 Proof. unfold positives. apply filter_app. Qed.
 
-Lemma sweep_last_tone s e n : 1 <= n -> qlt q0 (clamp0 e) = true ->
-  last (map tone_of (positives (sweep_freqs s e n))) 0 = tone_of (clamp0 e).
+Lemma sweep_last_tone s e n : 1 <= n -> qlt q0 (clamph e) = true ->
+  last (map tone_of (positives (sweep_freqs s e n))) 0 = tone_of (clamph e).
 Proof.
   intros Hn He. unfold sweep_freqs.
   rewrite (seq_last_split (Z.to_nat n)) by lia.
@@ -1031,8 +1146,8 @@ Proof.
   rewrite last_last. apply tone_of_comp. apply sweep_freq_last. exact Hn.
 Qed.
 
-Lemma sweep_first_tone s e n : 1 < n -> qlt q0 (clamp0 s) = true ->
-  hd 0 (map tone_of (positives (sweep_freqs s e n))) = tone_of (clamp0 s).
+Lemma sweep_first_tone s e n : 1 < n -> qlt q0 (clamph s) = true ->
+  hd 0 (map tone_of (positives (sweep_freqs s e n))) = tone_of (clamph s).
 Proof.
   intros Hn Hs. unfold sweep_freqs.
   replace (Z.to_nat n) with (S (Z.to_nat n - 1)) by lia. cbn [seq map].
@@ -1048,7 +1163,7 @@ Lemma delay_sum_sound pin f st : delay_sum (snd (sound pin f st)) = 0.
 Proof. unfold sound. destruct (qlt q0 f); reflexivity. Qed.
 
 Lemma sweep_loop_delays pin s e steps sd k : forall i st,
-  delay_sum (snd (sweep_loop pin s e steps sd k i st)) = Z.of_nat k * delay_sum (qdelay sd).
+  delay_sum (snd (sweep_loop pin s e steps sd k i st)) = Z.of_nat k * delay_sum (dl sd).
 Proof.
   induction k as [|k IH]; intros i st; [reflexivity|].
   cbn [sweep_loop].
@@ -1060,73 +1175,71 @@ Proof.
 Qed.
 
 Lemma step_delay_bound total n : 0 <= total -> 1 <= n ->
-  n * delay_sum (qdelay (inject_Z total / inject_Z n)) <= total.
+  n * delay_sum (dl (total / n)) <= total.
 Proof.
-  intros Ht Hn. unfold qdelay. destruct (qlt q0 (inject_Z total / inject_Z n)).
-  - unfold delay_sum. cbn. rewrite Z.add_0_r, <- Zdiv_Qdiv. apply Z.mul_div_le. lia.
+  intros Ht Hn. unfold dl. destruct (0 <? total / n).
+  - unfold delay_sum. cbn. rewrite Z.add_0_r. apply Z.mul_div_le. lia.
   - unfold delay_sum. cbn. lia.
 Qed.
 
-Lemma sweep_delay_sum pin neg tbl st s e d steps :
-  delay_sum (snd (dstep pin neg tbl st (Sweep s e d steps))) =
-  Z.max 1 (c_int steps) *
-  delay_sum (qdelay (inject_Z (f32z (c_ulong neg d)) / inject_Z (Z.max 1 (c_int steps)))).
+Lemma sweep_delay_sum pin tbl st s e d steps :
+  delay_sum (snd (dstep pin tbl st (Sweep s e d steps))) =
+  Z.max 1 (c_int steps) * delay_sum (dl (c_ulong d / Z.max 1 (c_int steps))).
 Proof.
   cbn [dstep]. unfold sweep.
   pose proof (sweep_loop_delays pin (clamp0 s) (clamp0 e) (Z.max 1 (c_int steps))
-               (inject_Z (f32z (c_ulong neg d)) / inject_Z (Z.max 1 (c_int steps)))%Q
+               (c_ulong d / Z.max 1 (c_int steps))
                (Z.to_nat (Z.max 1 (c_int steps))) 0 st) as Hl.
   destruct (sweep_loop pin (clamp0 s) (clamp0 e) (Z.max 1 (c_int steps))
-              (inject_Z (f32z (c_ulong neg d)) / inject_Z (Z.max 1 (c_int steps)))%Q
+              (c_ulong d / Z.max 1 (c_int steps))
               (Z.to_nat (Z.max 1 (c_int steps))) 0 st) as [st1 e1].
   cbn [fst snd] in *. rewrite delay_sum_app, Hl. unfold delay_sum at 2. cbn. rewrite Z2Nat.id by lia. lia.
 Qed.
-
-Lemma c_ulong_nonneg neg d : qle q0 d = true -> c_ulong neg d = Qfloor d /\ 0 <= Qfloor d.
-Proof.
-  intro H. unfold c_ulong. rewrite H. split; [reflexivity|].
-  apply qle_true in H. change 0 with (Qfloor 0). apply Qfloor_resp_le. exact H.
-Qed.
-
-Lemma f32z_small n : n < 2 ^ 24 -> f32z n = n.
-Proof. intro H. unfold f32z. apply Z.ltb_lt in H. rewrite H. reflexivity. Qed.
 
 Lemma filter_len_le {A} (f : A -> bool) l : (length (filter f l) <= length l)%nat.
 Proof. induction l as [|a l IH]; cbn; [lia|]. destruct (f a); cbn; lia. Qed.
 
 (* C16_sweep *)
-Lemma sweep_protocol : forall pin neg tbl st s e d steps,
+Lemma sweep_protocol : forall pin tbl st s e d steps,
   let n := Z.max 1 (c_int steps) in
-  let tr := snd (dstep pin neg tbl st (Sweep s e d steps)) in
-  (* the tones are the positive ones among the n interpolated frequencies, in order *)
+  let tr := snd (dstep pin tbl st (Sweep s e d steps)) in
+  (* the tones are the audible ones among the n interpolated frequencies, in order *)
   tones tr = map tone_of (positives (sweep_freqs (clamp0 s) (clamp0 e) n)) /\
   (length (tones tr) <= Z.to_nat n)%nat /\
-  (* guard forced by "frequency <= 0 never tones": both ends positive => exactly n tones *)
-  (qlt q0 s = true -> qlt q0 e = true ->
+  (* no tone(pin, 0): every tone is at least 1 *)
+  Forall (fun t => 1 <= t) (tones tr) /\
+  (* both ends audible (>= 1/2) => exactly n tones *)
+  (qle qhalf s = true -> qle qhalf e = true ->
      tones tr = map tone_of (sweep_freqs s e n) /\ length (tones tr) = Z.to_nat n) /\
   (* monotone, in the direction start -> end (clamped at 0) *)
   ((clamp0 s <= clamp0 e)%Q -> StronglySorted Z.le (tones tr)) /\
   ((clamp0 e <= clamp0 s)%Q -> StronglySorted Z.ge (tones tr)) /\
   (* first = start when steps > 1; last = end *)
-  (1 < n -> qlt q0 s = true -> hd 0 (tones tr) = tone_of s) /\
-  (qlt q0 e = true -> last (tones tr) 0 = tone_of e) /\
-  (* the delays never add up to more than the given duration - as long as the duration is exactly
-     representable as a float (below 2^24 ms); see sweep_float_duration_refuted *)
-  (qle q0 d = true -> Qfloor d < 2 ^ 24 ->
-     delay_sum tr <= Qfloor d /\ (inject_Z (delay_sum tr) <= d)%Q) /\
+  (1 < n -> qle qhalf s = true -> hd 0 (tones tr) = tone_of s) /\
+  (qle qhalf e = true -> last (tones tr) 0 = tone_of e) /\
+  (* the delays never add up to more than the given duration - any duration: the step delay is an integer
+     quotient, and a negative duration counts as zero *)
+  (delay_sum tr <= Z.max 0 (Qfloor d) /\ (qle q0 d = true -> (inject_Z (delay_sum tr) <= d)%Q)) /\
   (* and the call ends with noTone *)
   sounding_from true tr = false.
 Proof.
-  intros pin neg tbl st s e d steps n tr.
+  intros pin tbl st s e d steps n tr.
   assert (Hn : 1 <= n) by (subst n; lia).
   assert (Ht : tones tr = map tone_of (positives (sweep_freqs (clamp0 s) (clamp0 e) n)))
     by (apply sweep_tones).
+  assert (Hc0 : forall x, qle qhalf x = true -> clamp0 x = x).
+  { intros x Hx. apply clamp0_pos. apply qhalf_pos. exact Hx. }
   split; [exact Ht|]. split.
   { rewrite Ht, map_length. unfold positives.
     eapply Nat.le_trans; [apply filter_len_le|]. rewrite sweep_freqs_length. apply Nat.le_refl. }
   split.
-  { intros Hs He. rewrite Ht, (clamp0_pos s Hs), (clamp0_pos e He).
-    rewrite positives_all by (apply sweep_freqs_all_pos; try apply qlt_true; assumption).
+  { rewrite Ht. apply Forall_forall. intros t Hin. apply in_map_iff in Hin as (fq & Hq & Hin). subst t.
+    unfold positives in Hin. apply filter_In in Hin as [Hin Hp]. unfold sweep_freqs in Hin.
+    apply in_map_iff in Hin as (i & Hfq & _). subst fq. unfold sweep_freq in *.
+    apply tone_of_ge1. apply (clamph_pos_half _ Hp). }
+  split.
+  { intros Hs He. rewrite Ht, (Hc0 s Hs), (Hc0 e He).
+    rewrite positives_all by (apply sweep_freqs_all_pos; try apply qle_true; assumption).
     split; [reflexivity|]. rewrite map_length. apply sweep_freqs_length. }
   split.
   { intro Hse. rewrite Ht. apply sweep_tones_sorted. intros i j Hij.
@@ -1135,52 +1248,38 @@ Proof.
   { intro Hse. rewrite Ht. apply sweep_tones_sorted. intros i j Hij.
     apply Z.le_ge. apply tone_of_mono. apply sweep_freq_down; [exact Hse|exact Hn|lia]. }
   split.
-  { intros H1 Hs. rewrite Ht. rewrite (clamp0_pos s Hs).
-    rewrite (sweep_first_tone s (clamp0 e) n H1); rewrite (clamp0_pos s Hs); [reflexivity|exact Hs]. }
+  { intros H1 Hs. rewrite Ht. rewrite (Hc0 s Hs).
+    rewrite (sweep_first_tone s (clamp0 e) n H1); rewrite (clamph_ge s Hs); [reflexivity|apply qhalf_pos; exact Hs]. }
   split.
-  { intro He. rewrite Ht. rewrite (clamp0_pos e He).
-    rewrite (sweep_last_tone (clamp0 s) e n Hn); rewrite (clamp0_pos e He); [reflexivity|exact He]. }
+  { intro He. rewrite Ht. rewrite (Hc0 e He).
+    rewrite (sweep_last_tone (clamp0 s) e n Hn); rewrite (clamph_ge e He); [reflexivity|apply qhalf_pos; exact He]. }
   split.
-  { intros Hd Hsmall. destruct (c_ulong_nonneg neg d Hd) as [Hc Hp].
-    assert (Hb : delay_sum tr <= Qfloor d).
-    { subst tr. rewrite sweep_delay_sum, Hc, (f32z_small _ Hsmall). apply step_delay_bound; assumption. }
-    split; [exact Hb|].
-    eapply Qle_trans; [|apply Qfloor_le]. rewrite <- Zle_Qle. exact Hb. }
+  { assert (Hb : delay_sum tr <= Z.max 0 (Qfloor d)).
+    { subst tr. rewrite sweep_delay_sum, <- c_ulong_max. apply step_delay_bound; [apply c_ulong_ge0|exact Hn]. }
+    split; [exact Hb|]. intro Hd. destruct (c_ulong_nonneg d Hd) as [_ Hp].
+    eapply Qle_trans; [|apply Qfloor_le]. rewrite <- Zle_Qle. lia. }
   subst tr. cbn [dstep]. unfold sweep.
   destruct (sweep_loop pin (clamp0 s) (clamp0 e) (Z.max 1 (c_int steps))
-              (inject_Z (f32z (c_ulong neg d)) / inject_Z (Z.max 1 (c_int steps)))%Q
+              (c_ulong d / Z.max 1 (c_int steps))
               (Z.to_nat (Z.max 1 (c_int steps))) 0 st) as [st1 e1].
   cbn [snd]. rewrite sounding_from_app. reflexivity.
 Qed.
 
-(* a negative duration that reaches the cast as a run-time int wraps around: the sweep then delays
-   far longer than any reading of "the given duration" *)
-Lemma sweep_negative_duration_refuted :
-  exists pin tbl st s e d steps,
-    (d < 0)%Q /\
-    0 < delay_sum (snd (dstep pin (neg_int 32) tbl st (Sweep s e d steps))).
+(* a negative duration counts as zero: the sweep does not delay at all *)
+Lemma sweep_negative_duration : forall pin tbl st s e d steps,
+  (d < 0)%Q -> delay_sum (snd (dstep pin tbl st (Sweep s e d steps))) = 0.
 Proof.
-  exists 8, [], (init (Qmake 440 1)), (Qmake 440 1), (Qmake 880 1), (Qmake (-1) 1), (Qmake 2 1).
-  split; [reflexivity|]. vm_compute. reflexivity.
-Qed.
-
-(* a duration of 2^24 ms or more is first rounded to a float: sweep(440, 880, 16777219, steps=1) waits
-   16777220 ms, one more than it was given *)
-Lemma sweep_float_duration_refuted :
-  exists pin neg tbl st s e d steps,
-    qle q0 d = true /\
-    Qfloor d < delay_sum (snd (dstep pin neg tbl st (Sweep s e d steps))).
-Proof.
-  exists 8, neg_literal, [], (init (Qmake 440 1)), (Qmake 440 1), (Qmake 880 1), (Qmake 16777219 1), (Qmake 1 1).
-  vm_compute. split; reflexivity.
+  intros pin tbl st s e d steps Hd. rewrite sweep_delay_sum.
+  rewrite c_ulong_nonpos by (apply qle_true; apply Qlt_le_weak; exact Hd).
+  rewrite Z.div_0_l by lia. cbn. lia.
 Qed.
 
 (* steps <= 0 is clamped to 1: one tone is played although `steps` says none *)
 Lemma sweep_nonpositive_steps_refuted :
-  exists pin neg tbl st s e d steps,
+  exists pin tbl st s e d steps,
     c_int steps <= 0 /\
-    length (tones (snd (dstep pin neg tbl st (Sweep s e d steps)))) = 1%nat.
+    length (tones (snd (dstep pin tbl st (Sweep s e d steps)))) = 1%nat.
 Proof.
-  exists 8, neg_literal, [], (init (Qmake 440 1)), (Qmake 440 1), (Qmake 880 1), (Qmake 50 1), (Qmake 0 1).
+  exists 8, [], (init (Qmake 440 1)), (Qmake 440 1), (Qmake 880 1), (Qmake 50 1), (Qmake 0 1).
   vm_compute. split; [discriminate|reflexivity].
 Qed.
